@@ -7,7 +7,12 @@ import (
 
 // RandDB draws a database over metrics m and n. Labels listed in force are present on every series
 // (the premise of C12); the others are present or absent at random. No two series share a label set.
-func RandDB(rng *rand.Rand, force map[string]bool) []Series {
+func RandDB(rng *rand.Rand, force map[string]bool) []Series { return randDB(rng, force, false) }
+
+// WideDB is RandDB with up to 5 series per metric and an extra label d that no query names.
+func WideDB(rng *rand.Rand, force map[string]bool) []Series { return randDB(rng, force, true) }
+
+func randDB(rng *rand.Rand, force map[string]bool, wide bool) []Series {
 	var out []Series
 	seen := map[string]bool{}
 	pick := func(l string, vals []string, pAbsent int) string {
@@ -18,12 +23,18 @@ func RandDB(rng *rand.Rand, force map[string]bool) []Series {
 	}
 	for _, m := range []string{"m", "n"} {
 		k := []int{0, 1, 1, 1, 2, 2, 2, 3}[rng.Intn(8)]
+		if wide {
+			k = 1 + rng.Intn(5)
+		}
 		for i := 0; i < k; i++ {
 			s := Series{N: m,
 				A: pick("a", []string{"x", "y"}, 30),
 				B: pick("b", []string{"x", "y"}, 35),
 				C: pick("c", []string{"x", "y"}, 65),
 				V: 1 + rng.Intn(2)}
+			if wide && rng.Intn(2) == 0 {
+				s.D = []string{"x", "y"}[rng.Intn(2)]
+			}
 			if seen[s.Key()] {
 				continue
 			}
